@@ -487,7 +487,7 @@ fn rd64p(base: *const u8, off: usize) -> u64 {
 
 // ---- C01-Ob5 / C05: commit-time rebalance + spill of a two-leaf bucket after the transaction emptied exactly the
 //      FIRST leaf: no panic, the surviving entries end up in well-formed dirty pages, the freed runs are pending
-// @ob props=C01,C05 tier=quick cap=1800 mem=12 fns=InnerBucket::rebalance,InnerBucket::merge_nodes,InnerBucket::spill,Node::spill,Node::split,Node::write,Page::write_node,InnerBucket::delete bound="concrete tree, no symbolic input (one execution): branch root 3 over leaves 4 {k1,k2} and 5 {k3,k4}; delete k1 and k2; rebalance + spill" unwind=9
+// @ob props=C01,C05 tier=parked cap=1800 mem=12 fns=InnerBucket::rebalance,InnerBucket::merge_nodes,InnerBucket::spill,Node::spill,Node::split,Node::write,Page::write_node,InnerBucket::delete bound="concrete tree, no symbolic input (one execution): branch root 3 over leaves 4 {k1,k2} and 5 {k3,k4}; delete k1 and k2; rebalance + spill" unwind=9
 #[kani::proof]
 #[kani::unwind(9)]
 fn bucket_commit_after_emptying_first_leaf() {
